@@ -181,7 +181,7 @@ def instance_text(node, env, scope=None, lens=None, depth=0):
     return ast.unparse(node).replace(" ", "")
 
 
-def run_path(body, env, scope=None):
+def run_path(body, env, scope=None, skip_raising_guards=False):
     """Deterministic walk through a statement list under env (every if-test must be decidable with ceval, else Unknown):
     returns (executed simple statements in order, exit statement or None).  try-blocks are followed on their no-exception path
     (the handlers are returned separately by handlers_on_path), loops are recorded as one opaque statement."""
@@ -194,7 +194,14 @@ def run_path(body, env, scope=None):
     def block(stmts):
         for st in stmts:
             if isinstance(st, ast.If):
-                block(st.body if ceval(st.test, env, scope) else st.orelse)
+                try:
+                    t = ceval(st.test, env, scope)
+                except Unknown:
+                    # a guard that only rejects (if <undecidable>: raise) is passed on the normal path
+                    if skip_raising_guards and not st.orelse and st.body and isinstance(st.body[-1], ast.Raise) and all(isinstance(x, (ast.Assign, ast.AugAssign, ast.Expr, ast.Raise)) for x in st.body):
+                        continue
+                    raise
+                block(st.body if t else st.orelse)
             elif isinstance(st, (ast.Return, ast.Raise)):
                 raise _Exit(st)
             elif isinstance(st, ast.Try):
@@ -211,3 +218,20 @@ def run_path(body, env, scope=None):
     except _Exit as e:
         return done, e.st
     return done, None
+
+
+def calls_on_path(fnode, env, scope=None):
+    """[(call node, inside a loop?)] of the calls executed, in order, on the path of fnode selected by env (see run_path;
+    guards that only reject are passed)."""
+    done, ex = run_path(fnode.body, env, scope, skip_raising_guards=True)
+    out = []
+    for st in done:
+        loop = isinstance(st, (ast.For, ast.While))
+        for c in ast.walk(st):
+            if isinstance(c, ast.Call):
+                out.append((c, loop))
+    if ex is not None and isinstance(ex, ast.Return) and ex.value is not None:
+        for c in ast.walk(ex.value):
+            if isinstance(c, ast.Call):
+                out.append((c, False))
+    return out
